@@ -14,7 +14,8 @@ HOOK_RE = re.compile(r"(func \(gb \*gcpBalancer\) newSubConn\(\) \{\n[ \t]*)(gb\
 # second schedule hook: in front of the `gb.mu.Lock()` that opens bindSubConn / bindSubConnRef (the BIND completion
 # has evaluated its arguments by then): operation `doneswap` stops a completing BIND call there while a refresh
 # swaps the channel's connection
-BIND_HOOK_RE = re.compile(r"(func \(gb \*gcpBalancer\) bindSubConn(?:Ref)?\([^)]*\) \{\n[ \t]*)(gb\.mu\.Lock\(\))")
+# (statements in front of the Lock - a connection read too early, say - stay in front of the hook)
+BIND_HOOK_RE = re.compile(r"(func \(gb \*gcpBalancer\) bindSubConn(?:Ref)?\([^)]*\) \{\n(?:(?!\n\}\n|gb\.mu\.Lock\(\))[\s\S])*?)(gb\.mu\.Lock\(\))")
 
 # third schedule hook: in detectUnresponsive, between the test "did this call start after the last response?" and the
 # increment of the deadline-exceeded counter — only where the two are separate steps (`if scRef.deCallsInc() >= …` as a
